@@ -517,6 +517,10 @@ def check(prog, rep):
     from .c05 import field_tables
 
     field_tables(prog, rep)
+    # nothing on the way is memoised on a key that does not determine the answer
+    from ..rules_own import memo_rule
+
+    memo_rule(prog, rep, rule="MEMO")
 
 
 VARIANTS = [
